@@ -98,28 +98,54 @@ def apply_mutant(repo, mutant):
     return {mutant["file"]: src.replace(mutant["old"], mutant["new"])}
 
 
-def run_mutants(check: Check, mutants, generate, repo="/repo"):
-    """Mutant self-test: each source mutation (applied in memory to the text the generator
-    reads) must make at least one obligation fail.  `generate(loader, sink)` produces the
-    obligations; replay is skipped (the native code is not mutated)."""
+def _mutant_worker(a):
+    prop, m, module, func, repo = a
+    import importlib
     from pyvc.vc import discharge_z3, REFUTED
-    for m in mutants:
+    if m is None:
+        ov = {}
+        m = {"name": "<baseline>"}
+    else:
         ov = apply_mutant(repo, m)
-        if ov is None:
-            check.mutants.append({"mutant": m["name"], "result": "not-applicable (source text changed)"})
-            continue
-        sink = Check(check.prop, "mutant")
-        try:
-            generate(Loader(repo, overlay=ov), sink)
-        except Exception as e:
-            check.mutants.append({"mutant": m["name"], "result": f"generator raised {type(e).__name__}: {e}"})
-            continue
-        failed = []
-        for ob in sink.obs:
-            if ob.status is None:
-                discharge_z3(ob, 10000)
-            if ob.status == REFUTED:
-                failed.append(ob.key)
-        und = len(sink.undecided)
-        check.mutants.append({"mutant": m["name"], "killed": bool(failed), "failed_obligations": failed[:3],
-                              "n_failed": len(failed), "undecided_paths": und})
+    if ov is None:
+        return {"mutant": m["name"], "result": "not-applicable (source text changed)"}
+    sink = Check(prop, "mutant")
+    try:
+        gen = getattr(importlib.import_module(module), func)
+        gen(Loader(repo, overlay=ov), sink)
+    except Exception as e:
+        return {"mutant": m["name"], "result": f"generator raised {type(e).__name__}: {e}"}
+    failed = []
+    for ob in sink.obs:
+        if ob.status is None:
+            discharge_z3(ob, 10000)
+        if ob.status == REFUTED:
+            failed.append(ob.key)
+    return {"mutant": m["name"], "failed": failed, "undecided_paths": len(sink.undecided)}
+
+
+def run_mutants(check: Check, mutants, module, func, repo="/repo", workers=8):
+    """Mutant self-test: each source mutation (applied in memory to the text the generator
+    reads) must make at least one obligation fail.  module.func(loader, sink) produces the
+    obligations; replay is skipped (the native code is not mutated)."""
+    import multiprocessing as mp
+    jobs = [(check.prop, m, module, func, repo) for m in [None] + list(mutants)]
+    if workers <= 1:
+        res = [_mutant_worker(j) for j in jobs]
+    else:
+        with mp.get_context("fork").Pool(min(workers, len(jobs))) as pool:
+            res = pool.map(_mutant_worker, jobs)
+    base = set(res[0].get("failed", []))
+    out = []
+    for r in res[1:]:
+        if "failed" in r:
+            new = [k for k in r["failed"] if k not in base]
+            r = {"mutant": r["mutant"], "killed": bool(new), "n_newly_failed": len(new), "failed_obligations": new[:3],
+                 "undecided_paths": r["undecided_paths"]}
+        out.append(r)
+    res = out
+    check.mutants.extend(res)
+    check.extra["mutant_baseline_failures"] = len(base)
+    surv = [m for m in res if m.get("killed") is False]
+    if surv:
+        check.notes.append(f"checker-strength gap: surviving mutants {[m['mutant'] for m in surv]}")
